@@ -72,6 +72,45 @@ def run(seed=0):
     return out
 
 
+def run_nested(seed=0):
+    """nested differentiation through autograd.misc.fixed_points.fixed_point (its reverse rule is itself built from
+    nested make_vjp calls and an inner fixed point): orders 2 and 3 of sqrt by Newton's iteration, a Hessian-vector
+    product of a vector version, against closed forms"""
+    import numpy as onp
+    import autograd.numpy as np
+    from autograd import grad, make_hvp
+    from autograd.misc.fixed_points import fixed_point
+    from autograd.tracer import isbox
+
+    warnings.filterwarnings("ignore")
+    out = []
+    newton = lambda a: lambda x: 0.5 * (x + a / x)
+    dist = lambda x, y: np.max(np.abs(x - y))
+    sq = lambda a: fixed_point(newton, a, a * 0.0 + 1.0, dist, 1e-12)
+    for order, want in ((2, -0.25 * 2.0 ** -1.5), (3, 0.375 * 2.0 ** -2.5)):
+        key = "MISC fixed_points.fixed_point | derivative of order %d of sqrt by Newton iteration at a=2 (nested reverse mode)" % order
+        try:
+            f = sq
+            for _ in range(order):
+                f = grad(f)
+            got = f(2.0)
+            ok = (not isbox(got)) and abs(float(got) - want) <= 1e-5 * max(1.0, abs(want))
+            out.append(_res(key, ok, "" if ok else "got %r, closed form %r" % (got, want)))
+        except Exception as e:
+            out.append(_res(key, False, "raised %s: %s" % (type(e).__name__, e)))
+    key = "MISC fixed_points.fixed_point | Hessian-vector product of sum(sqrt(a)) (vector Newton iteration)"
+    try:
+        a0 = onp.array([2.0, 3.0, 0.7])
+        v = onp.array([1.0, -2.0, 0.5])
+        got = make_hvp(lambda a: np.sum(sq(a)))(a0)[0](v)
+        want = -0.25 * a0 ** -1.5 * v
+        ok = (not isbox(got)) and onp.allclose(onp.asarray(got, dtype=float), want, rtol=1e-5, atol=1e-8)
+        out.append(_res(key, ok, "" if ok else "got %r, closed form %r" % (got, want)))
+    except Exception as e:
+        out.append(_res(key, False, "raised %s: %s" % (type(e).__name__, e)))
+    return out
+
+
 if __name__ == "__main__":
-    for r in run():
+    for r in run() + run_nested():
         print(r["status"], r["key"], r["detail"])
